@@ -261,4 +261,8 @@ theorem C20_setup_addressing (u : BusUnit) (f : Frame) (hf : f ∈ setupFrames u
     | (rcases hf with h | h | h <;> subst h <;> exact hreq _)
     | (subst hf; exact hreq _)
 
+/-- the constructor the unit theorems are about: one driver per configured entry with a known pair, built from that
+entry's own addresses (source = the entry's override or the network address), with its own context -/
+theorem C20_constructor_as_modelled : authorityBuildsEveryKnownEntry = true ∧ authorityUnitsHaveTheirOwnContext = true := by decide
+
 end Glonax.Thm.C20
